@@ -3,4 +3,4 @@ Require Import ExtrOcamlBasic.
 From Coq Require Import QArith Qcanon.
 From SharkV Require Import C02Model C02BlkModel C02Q.
 Extraction "c02_model.ml" qc_ops qc_make qc_num qc_den trsv trsm potrf chol_solve_with chol_solve_m inv_tri unit_vec tab
-  qc_abs potrf_blocked getrf lu_solve lu_solve_right tabp.
+  qc_abs potrf_blocked getrf lu_solve lu_solve_right lu_solve_full tabp.
